@@ -19,14 +19,14 @@ claim("C06", "other",
       STRUCT + "the storage-header pattern constant is 'DLT\\x01', the finder is built from exactly that constant and searched with memmem::Finder::find (first occurrence).",
       "Not decided: memchr's search correctness." + TB,
       "evaluated constant + call-site argument provenance", "DESIGN §4 C06")
-claim("C07", "other",
-      STRUCT + "CALL-R — the byte source is read only through Read::read_exact on the BufReader (fragmentation and Interrupted are absorbed by std); the default capacity covers storage header + 65535.",
-      "Not decided: std BufReader/read_exact semantics." + TB,
-      "who-may-call rule over type-resolved trait method calls", "DESIGN §4 C07")
-claim("C08", "other",
-      STRUCT + "CALL-R on the pre-transform coroutine bodies — the async source is read only through AsyncReadExt::read_exact on futures' BufReader.",
-      "Not decided: interleavings of Poll::Pending (delegated to futures' ReadExact), cancel safety." + TB,
-      "who-may-call rule over coroutine MIR", "DESIGN §4 C08")
+claim("C07", "proof",
+      "INV: the reader built by `new` owns a scratch buffer of constant length K >= 16 + 65535 and next_message_slice preserves that length; PANIC: under INV every Assert / index / debug_assert site of next_message_slice is discharged for an arbitrary buffer content (the length field is an unconstrained u16) in both storage modes; ALG: read 1 fills [0,s+4), the length is the big-endian u16 at offset s+2, read 2 fills [s+4,s+L), the returned slice is [0,s+L) — as linear identities, s in {0,16} selected by with_storage_header; DISP: Ok(non-empty) is reachable only through the success outcome of both read_exact calls, failure of read 1 gives Ok(empty), failure of read 2 gives Err; CALL-R: the source is read only through Read::read_exact on the BufReader.",
+      "Not decided: std BufReader/read_exact semantics (trusted: fills the whole slice or fails, retries Interrupted) — this is what absorbs fragmentation schedules; equality of the parsed messages with slice parsing follows from ALG + read_message passing the slice and flag to dlt_message (C03/C04), argued not mechanised." + TB,
+      "abstract interpretation of next_message_slice under an inductive struct invariant (linear slice ranges, outcome partitioning of read_exact) + who-may-call rule", "DESIGN §4 C07")
+claim("C08", "proof",
+      "The same INV / PANIC / ALG / DISP / CALL-R rules on the pre-transform coroutine body of stream::next_message_slice (a Yield is a no-op on locals), and SIB: the abstract summary of the async reader — per exit: storage flag, outcome of each read, filled ranges, result variant, returned range, error kind, buffer capacity — equals the blocking reader's.",
+      "Not decided: interleavings of Poll::Pending (delegated to futures' ReadExact, trusted to resume where it stopped), cancel safety (disclaimed by the crate)." + TB,
+      "abstract interpretation of coroutine MIR + sibling-summary equality with the blocking reader", "DESIGN §4 C08")
 claim("C10", "other",
       STRUCT + "LOOP-1 — every iteration of the scan loop calls next_message_slice exactly once and collect_statistic exactly once (min = max = 1 over all header-to-latch paths), never outside the loop.",
       "Not decided: hash-map semantics, order independence of merging." + TB,
